@@ -378,6 +378,17 @@ class SxChar:
     def __add__(s, o):
         return mkstr([s] + list(o.cs if isinstance(o, SxStr) else o))
 
+    def encode(s, encoding="utf-8", errors="strict"):
+        """UTF-8 bytes of the character as a list of SxInt (forks on the encoded length)"""
+        if encoding.lower().replace("-", "") not in ("utf8",):
+            raise NotImplementedError("encode(%r) on a symbolic character" % encoding)
+        c = _cur()
+        if c.decide(s.t < 128):
+            return [SxInt(s.t)]
+        if c.decide(s.t < 2048):
+            return [SxInt(192 + s.t / 64), SxInt(128 + s.t % 64)]
+        raise PathAbort("encode of a code point >= 0x800")
+
     def __eq__(s, o):
         if isinstance(o, str) and len(o) == 1:
             return SxBool(s.t == ord(o))
